@@ -25,10 +25,15 @@ rule("C08.h", "the intersection of the wrapper's window with the window of a wra
 rule("C08.i", "an optional bound (start / end and other attributes kept from a constructor parameter that defaults to None) that is an operand "
               "of max() / min() or of an ordering comparison is covered by a None test of that very operand (a guard that tests another "
               "attribute - self.start for self.end - clips under the wrong condition or not at all)", floor=4, props=["C08", "C16"])
+rule("C07.z", "mapping rows an asset creates carry steps of the asset's own window: a 'time_step' column is filled from restricted.I (or a "
+              "selection of it), never from the index of the whole grid", floor=8, props=["C07", "C08"])
 rule("C07.u", "the result of a call that does not modify its receiver (Index.insert / append / drop / union, np.append / hstack / delete, "
               "pd.concat ...) is not discarded", floor=0, props=["C07", "C14"])
 rule("C15.i", "a variable of the fix window is pinned to its previous value itself: l[sel] = u[sel] = x_previous[sel] with one selector and "
               "no arithmetic", floor=2)
+rule("C15.l", "the window given as fix_time_window['I'] may be a mask or a list of time steps: it is only ever used as a subscript of the grid "
+              "index (timegrid.I[window] works for both); no mask-only conversion (flatnonzero / nonzero / where / astype(bool)) is applied "
+              "to it", floor=1)
 rule("C15.j", "the fix window selects variables by the steps of their mapping rows only - no other column (type, asset, node) narrows the "
               "selection", floor=1, props=["C15", "C17"])
 
@@ -102,7 +107,7 @@ def _known_not_none(p, node, text):
     return False
 
 
-@analysis("windows", ["C16.i", "C08.h", "C07.u", "C15.i", "C15.j", "C08.i"])
+@analysis("windows", ["C16.i", "C08.h", "C07.u", "C15.i", "C15.j", "C08.i", "C07.z", "C15.l"])
 def run(ctx):
     p = ctx.p
     # ================================================================= C16.i / C08.h
@@ -186,6 +191,28 @@ def run(ctx):
     if n_o == 0:
         ctx.ob("C08.i", "package", "compared optional window bounds", None, "no max() / min() / ordering comparison over an optional start / end found")
 
+    # ================================================================= C07.z steps of new mapping rows
+    n_z = 0
+    for fn in sorted(p.all_functions(), key=lambda f: f.qualname):
+        if fn.parent is not None or fn.cls is None or not p.is_subclass(fn.cls, "Asset"):
+            continue
+        org = None
+        for st in au.walk_stmts(fn.body):
+            if not (isinstance(st, ast.Assign) and any(isinstance(t0, ast.Subscript) and au.const_str(t0.slice) == "time_step" for t0 in st.targets)):
+                continue
+            org = org or ctx.origins(fn, values_only=True)
+            srcs = [x for x in org.nodes(st.value, st) if isinstance(x, ast.Attribute) and x.attr == "I" and "timegrid" in au.U(x)]
+            if not srcs:
+                continue
+            n_z += 1
+            whole = [x for x in srcs if "restricted" not in au.U(x)]
+            ctx.ob("C07.z", fn, au.short(st, 70), not whole,
+                   "the steps of these rows come from %s, the index of the whole grid, while the variables they describe exist for the steps of "
+                   "the asset's window only (restricted.I): for an asset whose window is shorter than the horizon there are more rows than "
+                   "variables - after the index is rebuilt the rows point to variables beyond the end of c / to other assets' variables and name "
+                   "steps outside the window" % au.short(whole[0], 40) if whole else "", node=st)
+    ctx.require(n_z >= 5, "fewer than 5 'time_step' columns filled from a grid index found", rules=["C07.z"])
+
     # ================================================================= C07.u discarded results
     for fn in sorted(p.all_functions(), key=lambda f: f.qualname):
         for st in au.walk_stmts(fn.body):
@@ -224,6 +251,28 @@ def run(ctx):
                "set revised), so the fixed part of the solution is not reproduced" % (au.short(s2.value, 50), au.short(t.slice, 20)), node=s2)
     if not pins:
         ctx.ob("C15.i", pf, "bounds pinned in the fix-window branch", None, "no l[...] / u[...] store found in the fix-window branch")
+    # C15.l: how the window itself is used
+    win_names = set()
+    for s2 in au.walk_stmts(fix_if[0].body):
+        if isinstance(s2, ast.Assign) and isinstance(s2.targets[0], ast.Name) and isinstance(s2.value, ast.Subscript) and au.const_str(s2.value.slice) == "I" \
+                and "fix" in au.U(s2.value.value):
+            win_names.add(s2.targets[0].id)
+    mask_only = []
+    uses = 0
+    for s2 in au.walk_stmts(fix_if[0].body):
+        for x in au.walk_own(s2):
+            if isinstance(x, ast.Call) and au.method_name(x) in ("flatnonzero", "nonzero", "where", "argwhere", "astype", "logical_not", "invert") \
+                    and any(isinstance(y, ast.Name) and y.id in win_names for a0 in list(x.args) + ([x.func.value] if isinstance(x.func, ast.Attribute) else []) for y in au.walk_local(a0)):
+                mask_only.append(x)
+            if isinstance(x, ast.Subscript) and isinstance(x.slice, ast.Name) and x.slice.id in win_names:
+                uses += 1
+    if win_names:
+        ctx.ob("C15.l", pf, "the window is used as a subscript of the grid index only", not mask_only,
+               "`%s` treats the window as a boolean mask; the documented other form, a list of time steps, is then read as truth values: the "
+               "steps 0 .. k-1 are pinned instead of the listed ones (and step 0 itself never, 0 being false) - the real window stays free and "
+               "variables outside it lose their bounds" % (au.short(mask_only[0], 50) if mask_only else ""), node=(mask_only[0] if mask_only else fix_if[0]))
+    else:
+        ctx.ob("C15.l", pf, "window of the fix branch", None, "fix_time_window['I'] is not bound to a local in the fix-window branch")
     # selector
     sel_defs = set()
     for s2 in pins:
